@@ -456,6 +456,10 @@ def make_extrap_func(func, extrap_x_l=None, extrap_log=False, fail_mag=10):
             # value more than fail_mag orders of magnitude away from the 
             # best input value.
             extrap_failed = abs(numpy.log10(ex_result/best_result)) > fail_mag
+            # For masked (Spectrum-valued) results the log10 of a non-positive
+            # ratio is masked rather than nan. Such entries, like nan for plain
+            # arrays, are not farther than fail_mag: they keep the extrapolation.
+            extrap_failed = numpy.ma.filled(extrap_failed, False)
             if numpy.any(extrap_failed):
                 logger.warning('Extrapolation may have failed. Check resulting '
                             'frequency spectrum for unexpected results.')
